@@ -31,6 +31,11 @@ type Mutant struct {
 	Expect  string // rule-id prefix that must report (breaking mutants)
 	Neutral bool
 	Edits   []Edit // additional edits (same or other files)
+	Patch   string // a unified diff instead of Old/New (seeded changes kept under /verif/seeded)
+	Seed    bool
+	// KnownMiss: a seeded change that DESIGN.md section 8 records as not caught by any static rule; its outcome is
+	// reported as "not-caught (recorded)" instead of "missed".
+	KnownMiss bool
 }
 
 type Edit struct{ File, Old, New string }
@@ -48,6 +53,9 @@ func mutantOverlay(repo, name string) (map[string][]byte, error) {
 	m := findMutant(name)
 	if m == nil {
 		return nil, fmt.Errorf("unknown mutant %q", name)
+	}
+	if m.Patch != "" {
+		return applyUnifiedDiff(repo, m.Patch)
 	}
 	ov := map[string][]byte{}
 	edits := append([]Edit{{m.File, m.Old, m.New}}, m.Edits...)
@@ -120,8 +128,16 @@ func runMutant(exe, repo string, m *Mutant) SelfTestResult {
 	case len(others) > 0:
 		res.Outcome = "caught-by-other-rule"
 		res.Detail = truncate(others[0], 200)
+	case m.KnownMiss:
+		res.Outcome = "not-caught (recorded in DESIGN.md section 8)"
 	default:
 		res.Outcome = "missed"
+	}
+	if m.Seed {
+		res.Kind = "seeded"
+		if res.Outcome == "caught-by-other-rule" {
+			res.Outcome = "caught"
+		}
 	}
 	return res
 }
@@ -258,4 +274,9 @@ func appendRule(rs []RuleInfo, id, text string) []RuleInfo {
 		}
 	}
 	return append(rs, RuleInfo{id, text})
+}
+
+func execOutput(exe string, args ...string) (string, error) {
+	out, err := exec.Command(exe, args...).CombinedOutput()
+	return string(out), err
 }
